@@ -30,6 +30,9 @@ CHECKS = {
  'C11': ('exploration',
          "Held on the executions explored: stop(SUCCESS/ERROR/CANCELLED, msg) injected at unit boundaries on the root or a nested execution; monitors: requested final state/message/output.result held to the end, no task inserted after the stop, every unfinished descendant of a cancelled execution CANCELLED with its parent task, each finished sub-workflow reported to its parent exactly once, late results change nothing.",
          "runtime monitoring: finality / no-insert-after-stop / tree-consistency monitors over recorded row history and RPC sends under stop injection at every unit boundary"),
+ 'C12': ('exploration',
+         "Held on the histories explored: generated workflows (plain, join, with-items with/without concurrency, retry, sub-workflows) run to ERROR, then rerun (reset on/off) or skip of a failed task with a new outcome, drained, repeated up to 3 times; oracle: workflow, enclosing workflows and parent tasks RUNNING right after the request and the task leaves ERROR first, normal form at quiescence equal to a fresh run with the new outcomes from the start (engine vs engine), with-items reruns exactly the failed items (reset off) or all items once (reset on), skip => SKIPPED with its on-skip / on-success successors, requests for tasks not in ERROR refused.",
+         "runtime monitoring: metamorphic equality of recorded final rows (rerun history vs fresh run) + trace monitors on row history after each rerun request"),
  'C13': ('fault_enumeration',
          "Held on the schedules and crash points enumerated: 1..3 real DefaultScheduler / LegacyScheduler instances on the shared database, 1..3 jobs scheduled in committing / rolling-back / object-expiring transactions; interleavings of persist, in-memory dispatch, store poll and clock steps with yield points before every DB-API call (dfs by re-execution + randomized strategies); for recorded schedules a sys.monitoring LINE failpoint kills an instance at its k-th statement, for every k; oracle over the invocation log (at least once if committed, never early, exactly once without crash, never if rolled back) and has_scheduled_jobs(key, processing=False) compared with the committed rows at every unit boundary.",
          "runtime monitoring: offline checker over the recorded invocation log + per-boundary assertion on the key query, under dfs interleaving and sys.monitoring statement-level crash injection"),
